@@ -221,6 +221,13 @@ int vchild_run(const char *sockpath, const char *flags, const char *tag,
         if (r < chunk) continue;  // next round reports EAGAIN
       }
       reply(s, "w %ld %ld", done, err, 0, 0);
+    } else if (c == 'C' && a == 99) {
+      // daemon-style: drop every inherited descriptor above 2 (the library's exit handle among
+      // them) and keep running; only the control socket stays
+      int n = 0;
+      for (int fd = 3; fd < 1024; fd++)
+        if (fd != s && close(fd) == 0) n++;
+      reply(s, "c %ld %ld", n, 0, 0, 0);
     } else if (c == 'C') {
       int r = close((int) a);
       reply(s, "c %ld %ld", r, r < 0 ? errno : 0, 0, 0);
